@@ -135,6 +135,10 @@ def small_content():
         dict_word.map(lambda w: {"hex": w.encode("latin-1").hex()}),
         nibble_str.map(lambda s: {"hex": s[:40].encode().hex()}),
         hex_str.map(lambda s: {"hex": s[:40].encode().hex()}),
+        # ... or as a JID pair (user part with arbitrary byte-range characters)
+        st.builds(lambda u, srv: {"hex": (u + "@" + srv).encode("latin-1").hex()},
+                  st.text(alphabet=st.characters(min_codepoint=1, max_codepoint=255, blacklist_characters="@"), min_size=1, max_size=12),
+                  st.sampled_from(["s.whatsapp.net", "g.us", "broadcast", "x.example", "\xe9t\xe9"])),
     )
 
 
